@@ -364,6 +364,18 @@ def apply (st : State) : Op → State × List Ack
 
 def next (st : State) (op : Op) : State := (apply st op).1
 
+/-- (P)UNSUBSCRIBE by a connection without an entry: the code returns early and answers nothing
+    (the missing reply is the subject of C05; here it only means there is no count to check). -/
+def silent (st : State) : Op → Bool
+  | .unsubscribe c _ _ => (aget st.subs c).isNone
+  | _ => false
+
+/-- What a client can make the server do: SUBSCRIBE / PSUBSCRIBE carry at least one name
+    (arity check of the handlers, server.rs `handle_subscribe` / `handle_psubscribe`). -/
+def clientOp : Op → Bool
+  | .subscribe _ _ xs => !xs.isEmpty
+  | _ => true
+
 /-- Everything the operation appends to output buffers, in order. -/
 def emit (dedup : Bool) (st : State) (op : Op) : List (ConnId × Event) :=
   match op with
@@ -412,5 +424,51 @@ def Event.isMsg : Event → Bool
   | .message _ _ => true
   | .pmessage _ _ _ => true
   | _ => false
+
+/-- The channel a `message` / `pmessage` frame was published on. -/
+def Event.chan? : Event → Option Bytes
+  | .message ch _ => some ch
+  | .pmessage _ ch _ => some ch
+  | _ => none
+
+def msgsOf (es : List Event) : List Event := es.filter Event.isMsg
+
+/-- Is `op` a SUBSCRIBE or PSUBSCRIBE issued by connection `c`? -/
+def Op.subscribesAs : Op → ConnId → Bool
+  | .subscribe c' _ _, c => decide (c' = c)
+  | _, _ => false
+
+/-- The frames one PUBLISH puts into the buffer of connection `c`: channel, pattern and payload
+    exactly as published. -/
+def msgBlock (c : ConnId) (ch msg : Bytes) (ds : List Delivery) : List Event :=
+  (ds.filter (fun d => decide (d.1 = c))).map (fun d => (toEvent ch msg d).2)
+
+/-- One block of frames for connection `c` per PUBLISH of the history, in publish order. -/
+def Code.blocks (dedup : Bool) : State → List Op → ConnId → List (List Event)
+  | _, [], _ => []
+  | st, .publish p ch msg :: ops, c =>
+    msgBlock c ch msg (publish dedup st ch) :: Code.blocks dedup (Code.next st (.publish p ch msg)) ops c
+  | st, op :: ops, c => Code.blocks dedup (Code.next st op) ops c
+
+/-- What the property prescribes for connection `c`, PUBLISH by PUBLISH: one frame per
+    subscription of `c` matching the channel at that moment. -/
+def Spec.blocks : Spec.State → List Op → ConnId → List (List Event)
+  | _, [], _ => []
+  | s, .publish p ch msg :: ops, c =>
+    msgBlock c ch msg (Spec.deliveries s ch) :: Spec.blocks (Spec.next s (.publish p ch msg)) ops c
+  | s, op :: ops, c => Spec.blocks (Spec.next s op) ops c
+
+/-- Block-wise equality up to the order of the frames inside one block. -/
+def BlocksPerm : List (List Event) → List (List Event) → Prop
+  | [], [] => True
+  | a :: as, b :: bs => a.Perm b ∧ BlocksPerm as bs
+  | _, _ => False
+
+/-- At no PUBLISH of the history does a connection hold two subscriptions matching the channel. -/
+def Spec.neverOverlap : Spec.State → List Op → Prop
+  | _, [] => True
+  | s, .publish p ch msg :: ops =>
+    ((Spec.deliveries s ch).map (·.1)).Nodup ∧ Spec.neverOverlap (Spec.next s (.publish p ch msg)) ops
+  | s, op :: ops => Spec.neverOverlap (Spec.next s op) ops
 
 end Ferrous.PubSub
